@@ -178,7 +178,11 @@ func (vc *FnVC) instr(in ssa.Instruction) {
 	case *ssa.RunDefers:
 		vc.runDefers()
 	case *ssa.Send:
-		vc.regionBoundary("send")
+		// a channel send is an addressable site ("call send assert ..." / "call send ghost ...")
+		vc.callOrd["send"]++
+		args := []TV{{t: vc.val(x.X), ty: x.X.Type()}, {t: vc.val(x.Chan), ty: x.Chan.Type()}}
+		vc.siteAsserts("send", vc.callOrd["send"], vc.cur, args, x.Pos())
+		vc.cur = vc.applyCallGhostsX("send", args, nil, vc.cur, nil)
 	case *ssa.Select:
 		vc.selectInstr(x)
 	default:
